@@ -90,6 +90,7 @@ func processorOrderRules(c *core.Ctx, r *core.Report, rule string) {
 var lookupRows = map[string]string{
 	"by-name": "GetComponentByName resolves the name through the cache accessor and returns the published object (.Raw of the accessor's result), an error if that fails",
 	"all":     "GetComponents returns, for every definition the registry query yields, the published object of that name (never the definition's own raw object), in query order; the first failure ends it with an error",
+	"fresh":   "every lookup asks the cache accessor again: a second lookup of a name returns what the accessor answers then (the version published in the meantime), not what an earlier lookup saw",
 }
 
 // lookupRules: the public lookups hand out the published version.
@@ -201,6 +202,48 @@ func lookupRules(c *core.Ctx, r *core.Report, rule string) {
 			default:
 				if isErr2 || strings.Join(got, " ") != "published-raw:b published-raw:a" || strings.Join(asked, " ") != "b a" {
 					rs.fail("all", w2)
+				}
+			}
+		}
+		// two lookups of one name on the same factory object; the accessor answers an early version first, the
+		// published one afterwards
+		{
+			t := newTbl(c)
+			reg := absint.NewTok("definitionRegistry", "registry")
+			t.field = func(ip *absint.Interp, obj *absint.Tok, name string, typ types.Type) absint.Value {
+				if obj.ID == "factory" && types.IsInterface(typ) {
+					return reg
+				}
+				return nil
+			}
+			asks := 0
+			for _, acc := range ro.CacheAccessors() {
+				t.callee[acc] = func(ip *absint.Interp, a []absint.Value) absint.Value {
+					asks++
+					pub := absint.NewTok(fmt.Sprintf("version%d", asks), "meta")
+					pub.Fields["Raw"] = absint.NewTok(fmt.Sprintf("raw-of-version%d", asks), "component")
+					return absint.Tuple{pub, absint.Nil{}}
+				}
+			}
+			f := absint.NewTok("factory", "factory")
+			f.Attr["zeroed"] = absint.Bool(true)
+			ip := absint.New(t)
+			ip.IsLog, ip.InScope = core.IsLogCall, c.InScope
+			var got []string
+			und := ""
+			for i := 0; i < 2 && und == ""; i++ {
+				o := ip.Run(byName, []absint.Value{f, absint.Str("x")}, nil)
+				if o.Undecided != nil {
+					und = o.Undecided.Msg
+				}
+				got = append(got, showOutcome(o))
+			}
+			if und != "" {
+				r.Undecided(rule, "lookup-table@"+core.FnName(byName)+":fresh", c.FnPos(byName), "abstract interpretation left the model: "+und)
+			} else {
+				rs.hit("fresh")
+				if want := "[(raw-of-version1, nil) (raw-of-version2, nil)]"; fmt.Sprint(got) != want || asks != 2 {
+					rs.fail("fresh", fmt.Sprintf("two lookups of \"x\": accessor asked %d time(s), results %v, want %s", asks, got, want))
 				}
 			}
 		}
